@@ -43,6 +43,8 @@ def h_nop_step(c, pkg, depth):
     F, C = pkg.functions, pkg.classes
     code = c.int('code', 0, 255)
     c.assume(code >= vmstep.N_OPS)
+    if depth > 20:
+        c.assume(sym_or(code == vmstep.N_OPS, code == 255))      # deep stacks: the dispatch is covered by the shallow ones
     count = c.byte('count')
     items = [c.bytes(f's{i}', 1 + (i % 2)) for i in range(depth)]
     stack = C.Stack()
@@ -103,6 +105,8 @@ def r_nop_step(inputs, params, obligation):
     else:
         ok = r[0] == 'ok' and stack.list() == items[:depth - cnt] and tape.pointer == 2
     ok = ok and not cache.wlog
+    if cnt >= 0 and r[0] == 'raise' and 'must not be negative' in str(r[1]):
+        ok = False          # the negative-count error for a count that is not negative
     return {'reproduced': not ok, 'outcome': repr(r)[:200], 'stack': [x.hex() for x in stack.list()], 'count': cnt}
 
 
@@ -290,7 +294,7 @@ def h_fork_compile(c, pkg):
 
 
 def _depths(tier):
-    return list(range(0, 7)) if tier == 'quick' else list(range(0, 13))
+    return (list(range(0, 7)) + [127, 128]) if tier == "quick" else (list(range(0, 13)) + [126, 127, 128, 129, 200])
 
 
 HARNESSES = [
